@@ -100,7 +100,7 @@ PROPS = {
             "Astral.C07.octantIndex_traditional", "Astral.C07.rahukaalam_spec",
             "Astral.C07.octant_close",
         ],
-        "groups": [G("corr_sun", "sun_periods", 3000, 80000), G("corr_sun", "sun_events", 1500, 30000)],
+        "groups": [G("corr_norm", "norm", 1500, 40000), G("corr_sun", "sun_periods", 3000, 80000), G("corr_sun", "sun_events", 1500, 30000)],
         "unproved": ["period start < end within one solar day: see C06 (shared-declination theorem)"],
         "assumes": ["DateMono for the output zone (night_ordered)"],
     },
@@ -485,7 +485,7 @@ PROPS = {
                      "Astral.C20Total.dusk_outcomes", "Astral.C20Total.timeAtElevation_outcomes",
                      "Astral.C20Total.alwaysVerdict_outcomes", "Astral.C20Total.sunrise_outcomes",
                      "Astral.C20Total.sunset_outcomes"],
-        "groups": [G("corr_sun", "sun_extreme", 4000, 100000), G("corr_sun", "sun_events", 2500, 50000),
+        "groups": [G("corr_norm", "norm", 2500, 40000), G("corr_sun", "sun_extreme", 4000, 100000), G("corr_sun", "sun_events", 2500, 50000),
                    G("corr_sun", "sun_angles", 2500, 50000), G("corr_moon", "moon_riseset", 1500, 30000),
                    G("corr_moon", "moon_angles", 1500, 30000)],
         "unproved": ["totality of the float chain at extreme magnitudes (ℝ cannot overflow)",
